@@ -27,6 +27,12 @@ Theorem type_checks_audited  :
 Proof. exact (LinkKinds.type_checks_audited ). Qed.
 Print Assumptions type_checks_audited.
 
+(* likewise every arity / arity list handed to check_arity / check_min_arity / check_max_arity / match_arguments / match_defaults *)
+Theorem arity_checks_audited  :
+  GenKinds.gen_arity_checks = audited_arity_checks.
+Proof. exact (LinkKinds.arity_checks_audited ). Qed.
+Print Assumptions arity_checks_audited.
+
 Theorem strict_is_the_source_union v :
   in_union GenKinds.gen_StrictValue v = negb (is_delayed v).
 Proof. exact (LinkKinds.strict_is_the_source_union v). Qed.
